@@ -1,1 +1,43 @@
-From Arche Require Import Model.Base.
+(** C12 - Subscriptions and Dispatch deliver exactly the selected part of the event stream.
+    Statements only; proofs in Proofs/Subs.v.  The generated copies of [subscribes]
+    (ecs/util.go and listener/util.go) are related to each other in Pure/SubsGen.v. *)
+From Arche Require Import Model.Base Model.World Model.Ops Proofs.Subs Pure.SubsGen.
+
+(** The subscription rule: an event is of interest iff some subscribed type occurred and,
+    under a component restriction, a relation type touched a relation component in it, a
+    creation/addition type an added component in it, or a removal type a removed one. *)
+Theorem C12_rule : forall trigger added removed subs o n,
+  subscribes trigger added removed subs o n = true <->
+  trigger <> 0%N /\
+  (subs = None \/
+   exists s, subs = Some s /\
+     ((contains_any trigger 48 = true /\ (opt_bit s o = true \/ opt_bit s n = true)) \/
+      (contains_any trigger 5 = true /\ exists x, added = Some x /\ contains_any s x = true) \/
+      (contains_any trigger 10 = true /\ exists x, removed = Some x /\ contains_any s x = true))).
+Proof. exact subscribes_rule. Qed.
+
+(** Dispatch: each sub-listener receives exactly what it would receive if installed alone,
+    for every list of sub-listeners (given at construction or added later), every
+    subscription mask and every component restriction. *)
+Theorem C12_dispatch : forall subs i l bits a r o n eva evr,
+  subs !! i = Some l -> mask_arg_ok a eva -> mask_arg_ok r evr ->
+  i ∈ recipients (LDispatch subs) bits a r o n eva evr <->
+  recipients (LCallback l) bits a r o n eva evr = [0].
+Proof. exact dispatch_equiv. Qed.
+
+(** The two copies of [subscribes] in the source (package ecs and package listener),
+    as regenerated from the current tree, are extensionally equal - in both builds. *)
+Theorem C12_copies_equal_256 : forall t a r s o n,
+  Arche.Gen.Mask256.listener_subscribes t a r s o n = Arche.Gen.Mask256.subscribes t a r s o n.
+Proof. exact subscribes_copies_256. Qed.
+Theorem C12_copies_equal_64 : forall t a r s o n,
+  Arche.Gen.Mask64.listener_subscribes t a r s o n = Arche.Gen.Mask64.subscribes t a r s o n.
+Proof. exact subscribes_copies_64. Qed.
+(** The generated [subscription] is the documented bit assignment (all 64 cases). *)
+Theorem C12_subscription_bits : forall b0 b1 b2 b3 b4 b5,
+  Arche.Gen.Mask256.subscription b0 b1 b2 b3 b4 b5 = subscription b0 b1 b2 b3 b4 b5.
+Proof. exact subscription_gen_model. Qed.
+
+Print Assumptions C12_dispatch.
+Print Assumptions C12_rule.
+Print Assumptions C12_copies_equal_256.
